@@ -1,14 +1,15 @@
 SPECIFICATION Spec
 CONSTANTS
   NW = 2
-  Family = "c13-quick"
-  PeerCounts = {1, 2, 3, 5}
+  Family = "collect"
+  PeerCounts = {1, 2}
   MaxChanges = 1
   Faithful = FALSE
   ShareIdentical = TRUE
   CachedDecide = TRUE
-  AtomicReload = FALSE
-INVARIANTS TypeOK WorkersShare DestsIsolated DefsIsolated RegistryGoals WorkerGoals PeerCountCurrent 
+  AtomicReload = TRUE
+INVARIANTS TypeOK WorkersShare DestsIsolated DefsIsolated RegistryGoals WorkerGoals PeerCountCurrent
 PROPERTIES CacheStable RegistryMonotone
 CHECK_DEADLOCK FALSE
+ACTION_CONSTRAINT Dump
 VIEW View
